@@ -64,7 +64,7 @@ def check(ctx):
 
 def d4_steps(ctx, idx):
     r = ctx.rule('D4.STEPS', 'each step of the solver equals the textbook Hungarian step (per-cell effect tables, '
-                 'full sweeps, no skipped adjustment)', floor=0)
+                 'full sweeps, no skipped adjustment)', floor=36)
     with r:
         steps_mod.check_steps(r, idx)
 
@@ -677,6 +677,36 @@ MUTANTS = [
     Mutant('table-entry-missing', MK, "                  5 : self.__step5,\n                  6 : self.__step6 }", "                  5 : self.__step5 }", 'D3'),
     Mutant('table-entry-crossed', MK, "                  5 : self.__step5,\n                  6 : self.__step6 }", "                  5 : self.__step6,\n                  6 : self.__step5 }", 'D3'),
     Mutant('step2-no-return', MK, "        self.__clear_covers()\n        return 3\n\n    def __step3", "        self.__clear_covers()\n\n    def __step3", 'D3'),
+    # D4: the steps themselves
+    Mutant('step6-skips-covered-rows', MK, "                if self.row_covered[i]:\n                    self.C[i][j] += minval\n                    events += 1\n                if not self.col_covered[j]:",
+           "                if self.row_covered[i]:\n                    continue\n                if not self.col_covered[j]:", 'D4'),
+    Mutant('step6-signs-swapped', MK, "                    self.C[i][j] += minval\n                    events += 1\n                if not self.col_covered[j]:\n                    self.C[i][j] -= minval",
+           "                    self.C[i][j] -= minval\n                    events += 1\n                if not self.col_covered[j]:\n                    self.C[i][j] += minval", 'D4'),
+    Mutant('step6-col-test-negated', MK, "                if not self.col_covered[j]:\n                    self.C[i][j] -= minval", "                if self.col_covered[j]:\n                    self.C[i][j] -= minval", 'D4'),
+    Mutant('step6-inner-range-short', MK, "            for j in range(self.n):\n                if self.C[i][j] is DISALLOWED:\n                    continue", "            for j in range(self.n - 1):\n                if self.C[i][j] is DISALLOWED:\n                    continue", 'D4'),
+    Mutant('find-smallest-or', MK, "                if (not self.row_covered[i]) and (not self.col_covered[j]):\n                    if self.C[i][j] is not DISALLOWED and minval >",
+           "                if (not self.row_covered[i]) or (not self.col_covered[j]):\n                    if self.C[i][j] is not DISALLOWED and minval >", 'D4'),
+    Mutant('find-smallest-takes-largest', MK, "if self.C[i][j] is not DISALLOWED and minval > self.C[i][j]:", "if self.C[i][j] is not DISALLOWED and minval < self.C[i][j]:", 'D4'),
+    Mutant('step1-subtracts-max', MK, "            minval = min(vals)", "            minval = max(vals)", 'D4'),
+    Mutant('step1-adds-minimum', MK, "                    self.C[i][j] -= minval\n        return 2", "                    self.C[i][j] += minval\n        return 2", 'D4'),
+    Mutant('step2-covers-not-cleared', MK, "        self.__clear_covers()\n        return 3\n\n    def __step3", "        return 3\n\n    def __step3", 'D4'),
+    Mutant('step2-column-not-remembered', MK, "                    self.marked[i][j] = 1\n                    self.col_covered[j] = True\n", "                    self.marked[i][j] = 1\n", 'D4'),
+    Mutant('step2-stars-covered-zeros', MK, "                if (self.C[i][j] == 0) and \\\n                        (not self.col_covered[j]) and \\\n                        (not self.row_covered[i]):\n                    self.marked[i][j] = 1",
+           "                if (self.C[i][j] == 0) and \\\n                        (not self.row_covered[i]):\n                    self.marked[i][j] = 1", 'D4'),
+    Mutant('step3-covers-primes', MK, "                if self.marked[i][j] == 1 and not self.col_covered[j]:", "                if self.marked[i][j] == 2 and not self.col_covered[j]:", 'D4'),
+    Mutant('step4-star-column-stays-covered', MK, "                    self.row_covered[row] = True\n                    self.col_covered[col] = False", "                    self.row_covered[row] = True\n                    self.col_covered[col] = True", 'D4'),
+    Mutant('step4-row-not-covered', MK, "                    self.row_covered[row] = True\n                    self.col_covered[col] = False", "                    self.col_covered[col] = False", 'D4'),
+    Mutant('step4-star-in-column-zero-missed', MK, "                if star_col >= 0:", "                if star_col > 0:", 'D4'),
+    Mutant('step4-z0-swapped', MK, "                    self.Z0_r = row\n                    self.Z0_c = col", "                    self.Z0_r = col\n                    self.Z0_c = row", 'D4'),
+    Mutant('step5-primes-not-erased', MK, "        self.__clear_covers()\n        self.__erase_primes()\n        return 3", "        self.__clear_covers()\n        return 3", 'D4'),
+    Mutant('step5-star-searched-in-row-slot', MK, "            row = self.__find_star_in_col(path[count][1])", "            row = self.__find_star_in_col(path[count][0])", 'D4'),
+    Mutant('convert-path-misses-last', MK, "        for i in range(count+1):", "        for i in range(count):", 'D4'),
+    Mutant('convert-path-no-unstar', MK, "            if self.marked[path[i][0]][path[i][1]] == 1:\n                self.marked[path[i][0]][path[i][1]] = 0", "            if self.marked[path[i][0]][path[i][1]] == 1:\n                self.marked[path[i][0]][path[i][1]] = 1", 'D4'),
+    Mutant('erase-primes-erases-stars', MK, "                if self.marked[i][j] == 2:\n                    self.marked[i][j] = 0", "                if self.marked[i][j] == 1:\n                    self.marked[i][j] = 0", 'D4'),
+    Mutant('find-star-in-col-scans-row', MK, "            if self.marked[i][col] == 1:", "            if self.marked[col][i] == 1:", 'D4'),
+    Mutant('find-prime-finds-stars', MK, "            if self.marked[row][j] == 2:", "            if self.marked[row][j] == 1:", 'D4'),
+    Mutant('find-a-zero-ignores-column-cover', MK, "                        (not self.row_covered[i]) and \\\n                        (not self.col_covered[j]):\n                    row = i", "                        (not self.row_covered[i]):\n                    row = i", 'D4'),
+    Mutant('clear-covers-rows-only', MK, "            self.row_covered[i] = False\n            self.col_covered[i] = False", "            self.row_covered[i] = False", 'D4'),
 ]
 
 BENIGN = [
@@ -691,4 +721,11 @@ BENIGN = [
     Benign('step3-direct-returns', MK, "        if count >= n:\n            step = 7 # done\n        else:\n            step = 4\n\n        return step",
            "        if count >= n:\n            return 7\n        return 4"),
     Benign('done-flag-logged', MK, "        done = False\n        step = 1\n", "        done = False\n        step = 1\n        logging = None\n"),
+    Benign('step6-by-cases', MK, "                if self.row_covered[i]:\n                    self.C[i][j] += minval\n                    events += 1\n                if not self.col_covered[j]:\n                    self.C[i][j] -= minval\n                    events += 1\n                if self.row_covered[i] and not self.col_covered[j]:\n                    events -= 2 # change reversed, no real difference\n",
+           "                if self.row_covered[i] and self.col_covered[j]:\n                    self.C[i][j] += minval\n                    events += 1\n                elif not self.row_covered[i] and not self.col_covered[j]:\n                    self.C[i][j] -= minval\n                    events += 1\n"),
+    Benign('find-smallest-de-morgan', MK, "                if (not self.row_covered[i]) and (not self.col_covered[j]):\n                    if self.C[i][j] is not DISALLOWED and minval >",
+           "                if not (self.row_covered[i] or self.col_covered[j]):\n                    if self.C[i][j] is not DISALLOWED and minval >"),
+    Benign('step2-row-cover-implied-by-break', MK, "                    self.col_covered[j] = True\n                    self.row_covered[i] = True\n                    break", "                    self.col_covered[j] = True\n                    break"),
+    Benign('step3-no-double-count-guard', MK, "                if self.marked[i][j] == 1 and not self.col_covered[j]:", "                if self.marked[i][j] == 1:"),
+    Benign('step4-star-test-as-not-negative', MK, "                if star_col >= 0:", "                if not star_col < 0:"),
 ]
